@@ -5,8 +5,10 @@ package c18
 // the stream) is replayed against a REAL receiving conn.MConnection running over a REAL
 // SecretConnection.  The sending side is the scripted peer: it writes exactly the
 // packets of the behaviour (real ser encoding of conn.PacketMsg, through its own real
-// SecretConnection); the bytes stay in the harness' model of the stream until the
-// behaviour's RecvPacket step releases them.  After every RecvPacket step a
+// SecretConnection); the packets stay in the harness' copy of the model's stream until the
+// behaviour's RecvPacket step writes them.  A Cut step writes only a proper beginning of
+// the packet in flight (the cut point is part of the instantiation) and ends the stream;
+// the receiver must stop without handing anything over.  After every RecvPacket step a
 // PacketPing / PacketPong round trip (the receiver handles packets strictly in order)
 // guarantees that the packet has been processed, and the messages handed to onReceive
 // so far are compared with the model: which channel, how many, byte-exact content.
@@ -29,15 +31,24 @@ import (
 	"verifh/mbt"
 )
 
+type mxPacket struct {
+	Ch  int  `json:"ch"`
+	Eof bool `json:"eof"`
+	ID  int  `json:"id"`
+	Lo  int  `json:"lo"`
+	Hi  int  `json:"hi"`
+}
+
 type mxAct struct {
-	Op      string `json:"op"`
-	Ch      int    `json:"ch"`
-	ID      int    `json:"id"`
-	N       int    `json:"n"`
-	Eof     bool   `json:"eof"`
-	Lo      int    `json:"lo"`
-	Hi      int    `json:"hi"`
-	Deliver bool   `json:"deliver"`
+	Partial mxPacket `json:"partial"`
+	Op      string   `json:"op"`
+	Ch      int      `json:"ch"`
+	ID      int      `json:"id"`
+	N       int      `json:"n"`
+	Eof     bool     `json:"eof"`
+	Lo      int      `json:"lo"`
+	Hi      int      `json:"hi"`
+	Deliver bool     `json:"deliver"`
 }
 
 type mxMsg struct {
@@ -114,6 +125,7 @@ func (l *rxLog) snapshot() ([]delivered, []string) {
 }
 
 type mxVariant struct {
+	CutAt   int    // where a Cut step cuts the packet in flight (index into mxCutPoints)
 	Scale   int    // every size of the behaviour is multiplied by Scale
 	Wire    string // mem-message | mem-stream | mem-trickle
 	RecvBuf int    // ChannelDescriptor.RecvBufferCapacity (initial capacity of the assembly buffer)
@@ -128,8 +140,22 @@ var (
 	mxIDSets = [][]byte{{0x20, 0x21, 0x22, 0x23}, {0x00, 0xff, 0x7f, 0x80}, {0x40, 0x30, 0x38, 0x01}}
 )
 
+// cut points inside an encoded packet of n bytes (n >= 10: 7 prefix bytes, list header,
+// channel id, eof flag, string header, payload)
+var mxCutPoints = []func(n int) int{
+	func(n int) int { return n - 1 }, // everything but the last byte
+	func(n int) int { return 1 },     // one byte
+	func(n int) int { return 7 },     // the type prefix only
+	func(n int) int { return n / 2 }, // half
+	func(n int) int { return 10 },    // just behind the eof flag
+	func(n int) int { return 9 },
+	func(n int) int { return 11 },
+	func(n int) int { return n - 2 },
+}
+
 func mxVariantFor(i int) mxVariant {
 	return mxVariant{
+		CutAt:   (i / 7) % len(mxCutPoints),
 		Scale:   mxScales[i%len(mxScales)],
 		Wire:    mxWires[(i/2)%len(mxWires)],
 		RecvBuf: mxBufs[(i/3)%len(mxBufs)],
@@ -143,6 +169,10 @@ func mconnConfig(p int) conn.MConnConfig {
 	cfg.SendRate, cfg.RecvRate = 0, 0 // no rate limiting: nothing in the check depends on time
 	cfg.MaxPacketMsgPayloadSize = p
 	cfg.FlushThrottle = time.Millisecond
+	// no keep-alive traffic during a check (the scripted peer does not answer pings, and a
+	// stalled machine must not turn into a "pong timeout")
+	cfg.PingInterval = 2 * time.Hour
+	cfg.PongTimeout = time.Hour
 	return cfg
 }
 
@@ -167,13 +197,10 @@ func mxReplay(g *mbt.Graph, seq []int, pModel int, v mxVariant, sabotage bool) (
 	defer mb.Close()
 	sa, sb, err := securePair(ma, mb)
 	if err != nil {
-		return 0, &mismatch{kind: "honest", key: "handshake/honest-rejected", desc: err.Error()}
+		return 0, honestFailure(err)
 	}
-	// from now on the harness holds the bytes in flight towards the real receiver
 	wire := mb.in
 	wire.set(func(h *halfPipe) {
-		h.gated = true
-		h.released = h.written
 		switch v.Wire {
 		case "mem-stream":
 			h.stream = true
@@ -197,20 +224,10 @@ func mxReplay(g *mbt.Graph, seq []int, pModel int, v mxVariant, sabotage bool) (
 	go packetReader(sa, 1<<20, pong)
 	ping := ser.MustEncodeToBytesWithType(conn.PacketPing{})
 
-	writeRaw := func(b []byte) (int64, error) {
-		w0, _ := wire.counters()
-		if _, err := sa.Write(b); err != nil {
-			return 0, err
-		}
-		w1, _ := wire.counters()
-		return w1 - w0, nil
-	}
 	barrier := func() error {
-		n, err := writeRaw(ping)
-		if err != nil {
+		if _, err := sa.Write(ping); err != nil {
 			return err
 		}
-		wire.release(n)
 		select {
 		case _, ok := <-pong:
 			if !ok {
@@ -221,10 +238,59 @@ func mxReplay(g *mbt.Graph, seq []int, pModel int, v mxVariant, sabotage bool) (
 			return fmt.Errorf("no pong within 20 s")
 		}
 	}
-
-	var stage []int64 // raw byte counts of the packets in flight (the model's wire)
-	content := map[[2]int][]byte{}
+	// compare what onReceive got with the model's state
 	got := 0 // deliveries compared so far
+	content := map[[2]int][]byte{}
+	compare := func(i int, a mxAct, to mxState, what string) *mismatch {
+		msgs, _ := rx.snapshot()
+		want := 0
+		for _, d := range to.D {
+			want += d
+		}
+		if len(msgs) > want {
+			x := msgs[len(msgs)-1]
+			key, why := "mconn/spurious-delivery", ""
+			if a.Op == "cut" {
+				key = "mconn/truncated-delivery-on-cut"
+				full := content[[2]int{a.Partial.Ch, a.Partial.ID}]
+				why = fmt.Sprintf("; the stream ended inside packet [ch %d, eof %v, bytes %d..%d of message %d (%d bytes)]: onReceive was handed %d bytes (hash %s), the complete message has hash %s", a.Partial.Ch, a.Partial.Eof, a.Partial.Lo*v.Scale, a.Partial.Hi*v.Scale, a.Partial.ID, len(full), len(x.payload), hashOf(x.payload), hashOf(full))
+			}
+			return &mismatch{kind: "prop", key: key, desc: fmt.Sprintf("onReceive got %d messages, the model has delivered %d; last one: channel %#x, %d bytes (%s)%s", len(msgs), want, x.ch, len(x.payload), what, why), step: i}
+		}
+		if len(msgs) < want {
+			return &mismatch{kind: "prop", key: "mconn/missing-delivery", desc: fmt.Sprintf("the eof packet of message %d of channel %d was processed but onReceive was not called (%d deliveries, the model has %d)", a.ID, a.Ch, len(msgs), want), step: i}
+		}
+		for ; got < len(msgs); got++ {
+			// the only delivery of this step is the message the model completes
+			exp := content[[2]int{a.Ch, a.ID}]
+			if sabotage && len(exp) > 0 {
+				// negative control: expect one byte to be different from what was sent
+				exp = append([]byte(nil), exp...)
+				exp[len(exp)-1] ^= 0x5a
+			}
+			x := msgs[got]
+			if !a.Deliver || x.ch != v.IDs[a.Ch-1] || !bytes.Equal(x.payload, exp) {
+				return &mismatch{kind: "prop", key: "mconn/corrupt-delivery", desc: fmt.Sprintf("onReceive(%#x, %d bytes, hash %s) differs from message %d of channel %#x as sent (%d bytes, hash %s); first difference at byte %d", x.ch, len(x.payload), hashOf(x.payload), a.ID, v.IDs[a.Ch-1], len(exp), hashOf(exp), firstDiff(x.payload, exp)), step: i}
+			}
+		}
+		// per channel: the number of deliveries equals the model's
+		cnt := make([]int, nch)
+		for _, m := range msgs {
+			for c := 0; c < nch; c++ {
+				if v.IDs[c] == m.ch {
+					cnt[c]++
+				}
+			}
+		}
+		for c := range to.D {
+			if cnt[c] != to.D[c] {
+				return &mismatch{kind: "prop", key: "mconn/corrupt-delivery", desc: fmt.Sprintf("channel %#x has %d deliveries, the model %d", v.IDs[c], cnt[c], to.D[c]), step: i}
+			}
+		}
+		return nil
+	}
+
+	var stage [][]byte // encoded packets in flight (the model's wire)
 	for i, ei := range seq {
 		e := g.Edges[ei]
 		var a mxAct
@@ -248,62 +314,62 @@ func mxReplay(g *mbt.Graph, seq []int, pModel int, v mxVariant, sabotage bool) (
 			if err != nil {
 				return steps, &mismatch{kind: "infra", desc: "encoding a packet: " + err.Error(), step: i}
 			}
-			n, err := writeRaw(bz)
-			if err != nil {
-				return steps, &mismatch{kind: "infra", desc: "scripted sender: " + err.Error(), step: i}
-			}
-			stage = append(stage, n)
+			stage = append(stage, bz)
 		case "recv":
 			if len(stage) == 0 {
 				return steps, &mismatch{kind: "infra", desc: "the model receives a packet the replay never sent", step: i}
 			}
-			wire.release(stage[0])
+			_, werr := sa.Write(stage[0])
 			stage = stage[1:]
-			berr := barrier()
-			msgs, errs := rx.snapshot()
-			if len(errs) > 0 {
+			var berr error
+			if werr == nil {
+				berr = barrier()
+			}
+			if _, errs := rx.snapshot(); len(errs) > 0 {
 				return steps, &mismatch{kind: "prop", key: "mconn/connection-failed", desc: fmt.Sprintf("the receiving MConnection stopped with an error after packet [ch %d, eof %v, bytes %d..%d of message %d]: %s", a.Ch, a.Eof, a.Lo*v.Scale, a.Hi*v.Scale, a.ID, errs[0]), step: i}
 			}
-			if berr != nil {
-				return steps, &mismatch{kind: "infra", desc: "ping/pong barrier: " + berr.Error(), step: i}
+			if werr != nil || berr != nil {
+				return steps, &mismatch{kind: "infra", desc: fmt.Sprintf("scripted sender / ping-pong barrier: %v %v", werr, berr), step: i}
 			}
-			want := 0
-			for _, d := range to.D {
-				want += d
+			if m := compare(i, a, to, fmt.Sprintf("after packet [ch %d, eof %v] of message %d", a.Ch, a.Eof, a.ID)); m != nil {
+				return steps, m
 			}
-			if len(msgs) > want {
-				x := msgs[len(msgs)-1]
-				return steps, &mismatch{kind: "prop", key: "mconn/spurious-delivery", desc: fmt.Sprintf("onReceive got %d messages, the model has delivered %d; last one: channel %#x, %d bytes (after packet [ch %d, eof %v] of message %d)", len(msgs), want, x.ch, len(x.payload), a.Ch, a.Eof, a.ID), step: i}
-			}
-			if len(msgs) < want {
-				return steps, &mismatch{kind: "prop", key: "mconn/missing-delivery", desc: fmt.Sprintf("the eof packet of message %d of channel %d was processed but onReceive was not called (%d deliveries, the model has %d)", a.ID, a.Ch, len(msgs), want), step: i}
-			}
-			for ; got < len(msgs); got++ {
-				// the only delivery of this step is the message the model completes
-				exp := content[[2]int{a.Ch, a.ID}]
-				if sabotage && len(exp) > 0 {
-					// negative control: expect one byte to be different from what was sent
-					exp = append([]byte(nil), exp...)
-					exp[len(exp)-1] ^= 0x5a
+		case "cut":
+			where := "between two packets"
+			if a.Partial.Ch != 0 {
+				if len(stage) == 0 {
+					return steps, &mismatch{kind: "infra", desc: "the model cuts a packet the replay never sent", step: i}
 				}
-				x := msgs[got]
-				if !a.Deliver || x.ch != v.IDs[a.Ch-1] || !bytes.Equal(x.payload, exp) {
-					return steps, &mismatch{kind: "prop", key: "mconn/corrupt-delivery", desc: fmt.Sprintf("onReceive(%#x, %d bytes, hash %s) differs from message %d of channel %#x as sent (%d bytes, hash %s); first difference at byte %d", x.ch, len(x.payload), hashOf(x.payload), a.ID, v.IDs[a.Ch-1], len(exp), hashOf(exp), firstDiff(x.payload, exp)), step: i}
+				bz := stage[0]
+				k := mxCutPoints[v.CutAt](len(bz))
+				if k < 1 {
+					k = 1
+				}
+				if k > len(bz)-1 {
+					k = len(bz) - 1
+				}
+				where = fmt.Sprintf("after %d of the %d bytes of the packet", k, len(bz))
+				if _, err := sa.Write(bz[:k]); err != nil {
+					return steps, &mismatch{kind: "infra", desc: "scripted sender: " + err.Error(), step: i}
 				}
 			}
-			// per channel: the number of deliveries equals the model's
-			cnt := make([]int, nch)
-			for _, m := range msgs {
-				for c := 0; c < nch; c++ {
-					if v.IDs[c] == m.ch {
-						cnt[c]++
-					}
+			stage = nil
+			ma.CloseWrite()
+			// the receiver notices the end of the stream and stops
+			deadline := time.After(20 * time.Second)
+			for stopped := false; !stopped; {
+				if _, errs := rx.snapshot(); len(errs) > 0 {
+					break
+				}
+				select {
+				case <-rx.sig:
+				case <-time.After(50 * time.Millisecond):
+				case <-deadline:
+					return steps, &mismatch{kind: "infra", desc: "the receiving MConnection does not notice the end of the stream", step: i}
 				}
 			}
-			for c := range to.D {
-				if cnt[c] != to.D[c] {
-					return steps, &mismatch{kind: "prop", key: "mconn/corrupt-delivery", desc: fmt.Sprintf("channel %#x has %d deliveries, the model %d", v.IDs[c], cnt[c], to.D[c]), step: i}
-				}
+			if m := compare(i, a, to, "stream cut "+where); m != nil {
+				return steps, m
 			}
 		}
 	}
